@@ -94,6 +94,9 @@ def run(rep, prog, thorough):
     check_delete_loops(rep, fm)
     check_json_name(rep, prog, fm)
     check_exclusive(rep, prog)
+    # the id given to --delete is the one normalised and length-checked by processId (rule shared with C10)
+    from .c10 import check_processId
+    check_processId(rep, prog)
     rep.floor("fs-mutation sites", len(sites), 5)
 
 
